@@ -64,6 +64,7 @@ def _worker_init(prop, tier, seed):
     _W["tier"] = tier
     _W["seed"] = seed
     load(prop)
+    _silence_progress_bars()
     _monitor_on()
 
 
@@ -75,6 +76,15 @@ def _alarm(signum, frame):
     import traceback as tb
     _W["hang_tb"] = "".join(tb.format_stack(frame)[-6:])
     raise PathTimeout()
+
+
+def _silence_progress_bars():
+    """progress bars of the code under test are not part of any property; they are silenced once per process"""
+    try:
+        import polyply.src.processor as _proc
+        _proc.tqdm = lambda it, *a, **k: it
+    except Exception:  # noqa
+        pass
 
 
 def _explore_slice(task):
@@ -326,6 +336,7 @@ def main(argv=None):
     logging.getLogger("polyply").setLevel(logging.CRITICAL)
     logging.getLogger("vermouth").setLevel(logging.CRITICAL)
     conds = load(prop)
+    _silence_progress_bars()
     if args.cond:
         conds = [c for c in conds if args.cond in c.id]
     if not conds:
